@@ -61,7 +61,7 @@ Inductive value := VS (s : str) | VB (b : bool) | VI (z : Z).
 Definition kind_of (v : value) : nat := match v with VS _ => 0%nat | VB _ => 1%nat | VI _ => 2%nat end.
 Definition zero_of (k : nat) : value := match k with 0%nat => VS [] | 1%nat => VB false | _ => VI 0 end.
 
-Fixpoint upd {A} (i : nat) (x : A) (l : list A) : list A :=
+Fixpoint upd {A} (i : nat) (x : A) (l : list A) {struct l} : list A :=
   match l, i with
   | [], _ => []
   | _ :: r, O => x :: r
@@ -106,13 +106,14 @@ Definition parse_digits (s : str) : option Z :=
   | [] => None
   | _ :: _ => match to_uint s with Some u => Some (Z.of_uint u) | None => None end
   end.
+Definition sign_split (s : str) : option Z :=
+  match s with
+  | 45 :: d => option_map Z.opp (parse_digits d)
+  | 43 :: d => parse_digits d
+  | _ => parse_digits s
+  end.
 Definition parse_int (s : str) : option Z :=
-  let r := match s with
-           | 45 :: d => option_map Z.opp (parse_digits d)
-           | 43 :: d => parse_digits d
-           | _ => parse_digits s
-           end in
-  match r with
+  match sign_split s with
   | Some z => if (- 2 ^ 63 <=? z) && (z <? 2 ^ 63) then Some z else None
   | None => None
   end.
@@ -132,12 +133,16 @@ Definition itoa (z : Z) : str :=
   | Decimal.Neg u => 45 :: uint_chars u
   end.
 
-(* dsn/util.go setValue on member i of the struct *)
+(* dsn/util.go setValue on member i of the struct: the member's kind decides how the text is read *)
+Definition typed (old : value) (text : str) : option value :=
+  match old with
+  | VS _ => Some (VS text)
+  | VB _ => option_map VB (parse_bool text)
+  | VI _ => option_map VI (parse_int text)
+  end.
 Definition set_value (st : list value) (i : nat) (text : str) : out (list value) :=
   match nth_error st i with
-  | Some (VS _) => Ok (upd i (VS text) st)
-  | Some (VB _) => match parse_bool text with Some b => Ok (upd i (VB b) st) | None => Err end
-  | Some (VI _) => match parse_int text with Some z => Ok (upd i (VI z) st) | None => Err end
+  | Some old => match typed old text with Some x => Ok (upd i x st) | None => Err end
   | None => Err
   end.
 
@@ -304,7 +309,7 @@ Record wurl := {
   w_user : option (str * str);       (* escaped user name and password; None = no userinfo *)
   w_host : str;                      (* Hostname() *)
   w_port : str;                      (* Port() *)
-  w_path : str;                      (* escaped path *)
+  w_path : str;                      (* Path (decoded; FormatURI only ever writes "/" or nothing) *)
   w_query : list (str * str)         (* escaped key=value pairs in wire order *)
 }.
 
@@ -416,7 +421,7 @@ Section URI.
                                    set_string tab st3 (L "password") (unesc pw))
           end) (fun st4 =>
     bind (match lookup (L "database") tab with
-          | Some _ => set_string tab st4 (L "database") (trim_slash (unesc (w_path u)))
+          | Some _ => set_string tab st4 (L "database") (trim_slash (w_path u))
           | None => Ok st4
           end) (fun st5 =>
     let q := map (fun kv => (unesc (fst kv), unesc (snd kv))) (w_query u) in
